@@ -314,6 +314,7 @@ func c20(r *core.Run) {
 		e.app.NoFile = 1024
 	}
 	var postCfg *obs
+	var lastTruth *model.Truth // the disk as the last Configure saw it (manual final mode, nobody else writing meanwhile)
 	reconf := e.w.Spawn(e.app, "reconfigurer", func() {
 		for i := range steps {
 			s := &steps[i]
@@ -324,12 +325,30 @@ func c20(r *core.Run) {
 			}
 			ep := winEpoch
 			s.shortage = inWindow
+			hBefore := len(e.w.FS.Hist)
 			if useDefault {
 				_ = cdi.Configure(s.options()...)
 			} else {
 				_ = e.cache.Configure(s.options()...)
 			}
 			s.shortage = s.shortage || inWindow || winEpoch != ep
+			if i == len(steps)-1 && !curAuto && (s.setDirs || s.setAuto) && !s.shortage {
+				// A Configure with options rescans (a NEW cache created now would
+				// hold exactly this): what the manual cache answers from here on must
+				// be the disk as Configure saw it - provided nobody changed the disk
+				// while it was looking.
+				quiet := true
+				for _, h := range e.w.FS.Hist[hBefore:] {
+					quiet = quiet && !(h.Mutating && h.Proc != e.app.Name)
+				}
+				if quiet {
+					dirs := make([]string, len(curDirs))
+					for k, d := range curDirs {
+						dirs[k] = filepath.Clean(d)
+					}
+					lastTruth = model.Observe(e.w.FS, dirs, e.reg, e.app.Cred)
+				}
+			}
 			if s.emfile {
 				e.w.Yield(&sched.Op{Kind: "window-close", Path: ""})
 				closeWindow()
@@ -475,6 +494,16 @@ func c20(r *core.Run) {
 	// manual mode "behaves like a new cache" is observable after an explicit
 	// Refresh(): both caches then reflect the same disk.
 	if !curAuto {
+		if postCfg != nil && lastTruth != nil && !lastTruth.HasUnknown() {
+			var wantDevs []string
+			for q := range lastTruth.Resolve() {
+				wantDevs = append(wantDevs, q)
+			}
+			sort.Strings(wantDevs)
+			if !eqStrings(postCfg.Devices, wantDevs) {
+				r.Failf("not-equivalent", "configure-did-not-rescan", "the last Configure(%s) returned with nobody else touching the directories meanwhile, yet right after it the cache lists %v while the directories hold %v: a new cache created with these options at that moment would have scanned them", steps[len(steps)-1], postCfg.Devices, wantDevs)
+			}
+		}
 		if postCfg != nil {
 			var now *obs
 			e.do("queries-0", func() { now = observeFirst(e.cache, nil, "ListDevices", false) })
@@ -485,7 +514,11 @@ func c20(r *core.Run) {
 		}
 		e.do("Refresh-0", func() { _ = e.cache.Refresh() })
 	}
-	e.do("queries-1", func() { touch(e.cache, probeNames(truth), first) })
+	// "still answers EVERY query from the current directory contents": the world
+	// is quiet and no descriptor shortage is on, so the very first round of
+	// queries - whatever kind comes first - must already be right
+	var got1 *obs
+	e.do("queries-1", func() { got1 = observeFirst(e.cache, probeNames(truth), first, curAuto) })
 	e.w.Quiesce()
 	r.CheckHealth("after the first query round")
 	var got *obs
@@ -497,6 +530,10 @@ func c20(r *core.Run) {
 		gotDirs = e.cache.GetSpecDirectories()
 	})
 	want, wantDirErrs, wantDirs := freshObs("a")
+	if d := diffObs(got1, want); d != "" && diffObs(got, want) == "" {
+		parts := strings.SplitN(d, "|", 2)
+		r.Failf("not-equivalent", "first-query-round/"+parts[0], "after the reconfigurations, with the world quiet and descriptors available again, the FIRST round of queries (starting with %s) does not answer from the current directory contents, the second round does: %s", first, parts[1])
+	}
 	if !eqStrings(gotDirs, wantDirs) {
 		r.Failf("not-equivalent", "directories", "GetSpecDirectories() = %v, a new cache with the final options has %v", gotDirs, wantDirs)
 	}
